@@ -51,6 +51,12 @@ TRANSLATIONS = [
      'FrameDataMissingError', 'FRAME_SIZE_ERROR'),
     ('frame_buffer.FrameBuffer.__next__', 'InvalidDataError',
      'ProtocolError', 'PROTOCOL_ERROR'),
+    # a frame header hyperframe refuses (a stream id the frame type does not
+    # allow) is not a size error
+    ('frame_buffer.FrameBuffer.__next__', 'InvalidFrameError',
+     'ProtocolError', 'PROTOCOL_ERROR', 'parse_frame_header'),
+    ('frame_buffer.FrameBuffer.__next__', 'InvalidDataError',
+     'ProtocolError', 'PROTOCOL_ERROR', 'parse_frame_header'),
     ('connection._decode_headers', 'OversizedHeaderListError',
      'DenialOfServiceError', 'ENHANCE_YOUR_CALM'),
     ('connection._decode_headers', 'HPACKError', None,
@@ -250,10 +256,12 @@ def run(ctx, eng):
                'raises %s whose error_code is %s (other classes raised: %s)'
                % (cname, codes.get(cname), sorted(raised - {cname})),
                node=f3.node)
-    for q, caught, cname, cat in TRANSLATIONS:
+    for tr_ in TRANSLATIONS:
+        q, caught, cname, cat = tr_[:4]
         f3 = m.func(q)
         found = None
-        guarded = 'parse_body' if 'frame_buffer' in q else 'decode'
+        guarded = tr_[4] if len(tr_) > 4 else (
+            'parse_body' if 'frame_buffer' in q else 'decode')
         handlers = []
         for tr in walk_own(f3.node):
             if isinstance(tr, ast.Try) and any(
@@ -276,7 +284,8 @@ def run(ctx, eng):
                             found = e.id if isinstance(e, ast.Name) \
                                 else getattr(e, 'attr', None)
         got = codes.get(found) if found else None
-        ctx.ob('TAB.category', f3.qual, '%s => %s' % (caught, cat),
+        ctx.ob('TAB.category', f3.qual, '%s => %s%s' % (
+            caught, cat, (' (%s)' % guarded) if len(tr_) > 4 else ''),
                got == cat,
                '%s is translated to %s (error_code %s); RFC 7540 requires '
                '%s' % (caught, found, got, cat), node=f3.node)
@@ -302,6 +311,12 @@ def run(ctx, eng):
                node=cell[2] if cell else fsm.stream.node)
     ctx.assume('hyperframe\'s own classification of malformed frames is '
                'trusted')
+    cm.include(ctx, eng, 'C11',
+               lambda o: o.rule == 'COH.apply-map' and
+               o.desc.startswith('local '),
+               'ENHANCE_YOUR_CALM, FRAME_SIZE_ERROR and FLOW_CONTROL_ERROR '
+               'are judged against the limits the peer has acknowledged: '
+               'each acknowledged setting reaches the place that enforces it')
     cm.include(ctx, eng, 'C19', {('ORD.gate', '_receive_headers_frame'),
                                  ('ORD.gate',
                                   '_receive_push_promise_frame')},
